@@ -12,6 +12,7 @@ INVARIANT ShimMatches
 INVARIANT TableWithinBuffer
 INVARIANT TableSound
 INVARIANT WithinCapacity
+INVARIANT HeaderKept
 PROPERTY NoopProp
 INVARIANT Emit
 CHECK_DEADLOCK FALSE
